@@ -1,4 +1,646 @@
-From Coq Require Import ZArith NArith List Bool Lia.
-From KV Require Import Common.Verdict Model.C07 Model.C08.
+(* Lemmas for C08 (statements of the property theorems are in Props/C08.v). *)
+From Coq Require Import ZArith NArith List Bool Lia Sorted Permutation.
+From Coq Require Import ZifyBool ZifyNat ZifyN.
+From KV Require Import Common.Verdict Model.C07 Model.C08 Proofs.C07.
 Import ListNotations.
-Lemma stub : True. Proof. exact I. Qed.
+Open Scope N_scope.
+
+(* ------------------------------------------------------------------ sorting: keys follow members *)
+Lemma insert_map seed x l :
+  insertZ (party_key seed x) (map (party_key seed) l) = map (party_key seed) (insertN x l).
+Proof.
+  induction l as [|y l IH]; [reflexivity|]. cbn [map insertZ insertN].
+  assert (E : (party_key seed x <=? party_key seed y)%Z = (x <=? y)).
+  { unfold party_key. destruct (N.leb_spec x y); lia. }
+  rewrite E. destruct (x <=? y); cbn [map]; [reflexivity|]. rewrite IH. reflexivity.
+Qed.
+Lemma wallet_keys_sorted_members seed l :
+  wallet_keys seed l = map (party_key seed) (sortN l).
+Proof.
+  unfold wallet_keys, sortZ, sortN. induction l as [|x l IH]; [reflexivity|].
+  cbn [map fold_right]. rewrite IH. apply insert_map.
+Qed.
+
+Lemma sortN_length l : length (sortN l) = length l.
+Proof.
+  assert (I : forall a l, length (insertN a l) = S (length l)).
+  { intros a l0. induction l0 as [|y l0 IH]; [reflexivity|]. cbn [insertN].
+    destruct (a <=? y); cbn [length]; [reflexivity|]. rewrite IH. reflexivity. }
+  unfold sortN. induction l as [|x l IH]; [reflexivity|]. cbn [fold_right length]. rewrite I, IH. reflexivity.
+Qed.
+
+Lemma SSorted_NoDup l : StronglySorted N.lt l -> NoDup l.
+Proof.
+  induction 1 as [|a l Hs IH Hf]; constructor; [|exact IH].
+  intros Hin. rewrite Forall_forall in Hf. specialize (Hf a Hin). lia.
+Qed.
+
+Lemma Forall2_len {A B} (R : A -> B -> Prop) l l' : Forall2 R l l' -> length l = length l'.
+Proof. induction 1; cbn [length]; congruence. Qed.
+
+Lemma fst_combine {A B} (l : list A) : forall (l' : list B), length l = length l' -> map fst (combine l l') = l.
+Proof. induction l as [|x l IH]; intros [|y l'] H; cbn in *; try discriminate; [reflexivity|]. f_equal. apply IH. lia. Qed.
+Lemma snd_combine {A B} (l : list A) : forall (l' : list B), length l = length l' -> map snd (combine l l') = l'.
+Proof. induction l as [|x l IH]; intros [|y l'] H; cbn in *; try discriminate; [reflexivity|]. f_equal. apply IH. lia. Qed.
+
+(* position of an element in a list *)
+Lemma In_nth_error_pos {A} (l : list A) x : In x l -> exists j, nth_error l j = Some x.
+Proof. apply In_nth_error. Qed.
+
+Lemma sorted_nth_lt l : StronglySorted N.lt l -> forall i j a b,
+  nth_error l i = Some a -> nth_error l j = Some b -> (i < j)%nat -> a < b.
+Proof.
+  induction 1 as [|x l Hs IH Hf]; intros i j a b Hi Hj Hlt.
+  - destruct i; discriminate.
+  - destruct j as [|j]; [lia|]. cbn in Hj. destruct i as [|i]; cbn in Hi.
+    + inversion Hi; subst. rewrite Forall_forall in Hf. apply Hf. eapply nth_error_In, Hj.
+    + apply (IH i j a b Hi Hj). lia.
+Qed.
+
+(* ------------------------------------------------------------------ map_set / map_get *)
+Definition keys_below (idx : list (N * N)) (m : N) : Prop := forall kv, In kv idx -> fst kv < m.
+
+Lemma map_set_append idx m v : keys_below idx m -> map_set m v idx = idx ++ [(m, v)].
+Proof.
+  induction idx as [|[k' v'] idx IH]; intros H; [reflexivity|]. cbn [map_set app].
+  assert (Hk : k' < m) by (apply (H (k', v')); left; reflexivity).
+  destruct (N.eqb_spec m k'); [lia|]. destruct (N.ltb_spec m k'); [lia|].
+  rewrite IH; [reflexivity|]. intros kv Hin. apply H. right. exact Hin.
+Qed.
+
+Lemma map_get_app_notin a b k :
+  (forall kv, In kv a -> fst kv <> k) -> map_get k (a ++ b) = map_get k b.
+Proof.
+  unfold map_get. induction a as [|kv a IH]; intros H; [reflexivity|]. cbn [app find].
+  destruct (N.eqb_spec (fst kv) k) as [E|E].
+  - exfalso. apply (H kv); [left; reflexivity | exact E].
+  - apply IH. intros kv' Hin. apply H. right. exact Hin.
+Qed.
+
+(* the index map finalSigningGroup builds over a strictly ascending member list *)
+Definition final_of_pos (i : nat) : N := (N.of_nat i + 1) mod 256.
+Definition idx_list (s : list N) (i : nat) : list (N * N) :=
+  combine s (map final_of_pos (seq i (length s))).
+
+Lemma map_get_idx_list s : forall i j m,
+  NoDup s -> nth_error s j = Some m -> map_get m (idx_list s i) = Some (final_of_pos (i + j)).
+Proof.
+  unfold idx_list. induction s as [|x s IH]; intros i j m Hnd Hj; [destruct j; discriminate|].
+  cbn [length seq map combine]. unfold map_get. cbn [find fst]. inversion Hnd; subst.
+  destruct j as [|j]; cbn in Hj.
+  - inversion Hj; subst. rewrite N.eqb_refl. cbn [snd]. rewrite Nat.add_0_r. reflexivity.
+  - destruct (N.eqb_spec x m) as [E|E].
+    + exfalso. subst x. apply H1. eapply nth_error_In, Hj.
+    + specialize (IH (S i) j m H2 Hj). unfold map_get in IH. rewrite IH. f_equal. f_equal. lia.
+Qed.
+
+Lemma fsg_loop_spec selected : forall s i ops idx,
+  StronglySorted N.lt s ->
+  (forall m, In m s -> 1 <= m <= N.of_nat (length selected) /\ m <= 255) ->
+  (forall m, In m s -> keys_below idx m) ->
+  exists sel, Forall2 (fun m o => nth_error selected (N.to_nat (m - 1)) = Some o) s sel
+    /\ fsg_loop selected s i ops idx = Some (ops ++ sel, idx ++ idx_list s i).
+Proof.
+  induction s as [|m s IH]; intros i ops idx Hs Hr Hk.
+  - exists []. split; [constructor|]. cbn. rewrite !app_nil_r. reflexivity.
+  - inversion Hs as [|? ? Hs' Hf]; subst. rewrite Forall_forall in Hf.
+    destruct (Hr m (or_introl eq_refl)) as [Hm1 Hm2].
+    cbn [fsg_loop]. rewrite mod_index by lia.
+    destruct (nth_error selected (N.to_nat (m - 1))) as [o|] eqn:En.
+    2:{ apply nth_error_None in En. lia. }
+    rewrite map_set_append by (apply Hk; left; reflexivity).
+    destruct (IH (S i) (ops ++ [o]) (idx ++ [(m, final_of_pos i)]) Hs') as [sel [F E]].
+    + intros m' Hin. apply Hr. right. exact Hin.
+    + intros m' Hin kv Hkv. apply in_app_iff in Hkv. destruct Hkv as [Hkv|[<-|[]]].
+      * specialize (Hk m (or_introl eq_refl) kv Hkv). specialize (Hf m' Hin). lia.
+      * cbn [fst]. apply Hf. exact Hin.
+    + exists (o :: sel). split; [constructor; assumption|].
+      fold (final_of_pos i). rewrite E. rewrite <- !app_assoc. reflexivity.
+Qed.
+
+(* ------------------------------------------------------------------ converter *)
+Lemma index_of_nth keys : forall i0 j k,
+  NoDup keys -> nth_error keys j = Some k -> index_of k keys i0 = Some (i0 + j)%nat.
+Proof.
+  induction keys as [|x keys IH]; intros i0 j k Hnd Hj; [destruct j; discriminate|].
+  inversion Hnd; subst. cbn [index_of]. destruct j as [|j]; cbn in Hj.
+  - inversion Hj; subst. rewrite Z.eqb_refl. f_equal. lia.
+  - destruct (Z.eqb_spec x k) as [E|E].
+    + exfalso. subst x. apply H1. eapply nth_error_In, Hj.
+    + rewrite (IH (S i0) j k H2 Hj). f_equal. lia.
+Qed.
+Lemma index_of_None keys : forall i0 k, ~ In k keys -> index_of k keys i0 = None.
+Proof.
+  induction keys as [|x keys IH]; intros i0 k H; [reflexivity|]. cbn [index_of].
+  destruct (Z.eqb_spec x k) as [E|E]; [exfalso; apply H; left; exact E|].
+  apply IH. intros Hin. apply H. right. exact Hin.
+Qed.
+
+(* round trip on valid indexes, no panic *)
+Lemma converter_roundtrip keys i :
+  NoDup keys -> (length keys < 256)%nat -> 1 <= i <= N.of_nat (length keys) ->
+  exists k, sc_key keys i = Some k /\ sc_index keys k = i.
+Proof.
+  intros Hnd Hl Hi. unfold sc_key. rewrite mod_index by lia.
+  destruct (nth_error keys (N.to_nat (i - 1))) as [k|] eqn:En.
+  2:{ apply nth_error_None in En. lia. }
+  exists k. split; [reflexivity|]. unfold sc_index.
+  rewrite (index_of_nth keys 0 _ k Hnd En). cbn [Nat.add].
+  rewrite N.mod_small by lia. lia.
+Qed.
+Lemma converter_foreign keys k : ~ In k keys -> sc_index keys k = 0.
+Proof. intros H. unfold sc_index. rewrite index_of_None by exact H. reflexivity. Qed.
+Lemma converter_panics_only_outside keys i :
+  (length keys < 256)%nat -> i < 256 ->
+  (sc_key keys i = None <-> i = 0 \/ N.of_nat (length keys) < i).
+Proof.
+  intros Hl Hi. unfold sc_key. rewrite nth_error_None. destruct (N.eq_dec i 0) as [->|Hn].
+  - cbn. split; [auto | lia].
+  - rewrite mod_index by lia. lia.
+Qed.
+
+(* ------------------------------------------------------------------ the main theorem *)
+Definition valid_wallet (selected operating : list N) (size quorum : Z) : Prop :=
+  Z.of_nat (length selected) = size /\ (size < 256)%Z
+  /\ (quorum <= Z.of_nat (length operating))%Z /\ NoDup operating
+  /\ forall m, In m operating -> 1 <= m /\ (Z.of_N m <= size)%Z.
+
+Lemma final_group_main seed selected operating size quorum :
+  valid_wallet selected operating size quorum ->
+  let keys := wallet_keys seed operating in
+  exists ops idx,
+    final_signing_group selected operating size quorum = FOk ops idx
+    /\ length ops = length operating /\ map fst idx = sortN operating
+    /\ map snd idx = map N.of_nat (seq 1 (length operating))
+    /\ (forall m, In m operating -> exists fi,
+          map_get m idx = Some fi /\ 1 <= fi <= N.of_nat (length operating)
+          /\ sc_key keys fi = Some (party_key seed m)
+          /\ sc_index keys (party_key seed m) = fi
+          /\ nth_error ops (N.to_nat (fi - 1)) = nth_error selected (N.to_nat (m - 1))
+          /\ nth_error selected (N.to_nat (m - 1)) <> None)
+    /\ (forall m1 m2 f1 f2, map_get m1 idx = Some f1 -> map_get m2 idx = Some f2 ->
+          In m1 operating -> In m2 operating -> (m1 < m2 <-> f1 < f2)).
+Proof.
+  intros (Hlen & Hsz & Hq & Hnd & Hr) keys.
+  set (s := sortN operating).
+  assert (Ss : StronglySorted N.lt s) by (apply sortN_sorted; exact Hnd).
+  assert (Ns : NoDup s) by (apply SSorted_NoDup; exact Ss).
+  assert (Ls : length s = length operating) by apply sortN_length.
+  assert (Hin : forall m, In m s <-> In m operating) by (intros m; apply In_sortN).
+  assert (Hk : (length operating <= 255)%nat).
+  { assert (NoDup s /\ forall m, In m s -> 1 <= m <= 255) as [_ Hb].
+    { split; [exact Ns|]. intros m Hm. apply Hin, Hr in Hm. lia. }
+    (* pigeonhole through the sorted list *)
+    assert (G : forall l, StronglySorted N.lt l -> forall b, b <= 256 ->
+                (forall m, In m l -> b <= m <= 255) -> N.of_nat (length l) + b <= 256).
+    { induction 1 as [|a l Hs' IH Hf]; intros b Hb0 Hb'; cbn [length]; [lia|].
+      rewrite Forall_forall in Hf.
+      assert (b <= a <= 255) by (apply Hb'; left; reflexivity).
+      assert (N.of_nat (length l) + (a + 1) <= 256).
+      { apply IH; [lia|]. intros m Hm. specialize (Hf m Hm). specialize (Hb' m (or_intror Hm)). lia. }
+      lia. }
+    assert (1 <= 256) by lia.
+    specialize (G s Ss 1 H Hb). lia. }
+  unfold final_signing_group.
+  assert (C1 : negb (Z.of_nat (length selected) =? size)%Z || (Z.of_nat (length operating) <? quorum)%Z = false).
+  { apply orb_false_iff. split; [apply negb_false_iff, Z.eqb_eq; exact Hlen | apply Z.ltb_ge; exact Hq]. }
+  rewrite C1. fold s.
+  destruct (fsg_loop_spec selected s 0 [] [] Ss) as [sel [F E]].
+  { intros m Hm. apply Hin, Hr in Hm. lia. }
+  { intros m _ kv []. }
+  rewrite E. cbn [app]. exists sel, (idx_list s 0).
+  assert (Lsel : length sel = length s) by (symmetry; eapply Forall2_len, F).
+  assert (Fst : map fst (idx_list s 0) = s).
+  { unfold idx_list. apply fst_combine. rewrite map_length, seq_length. reflexivity. }
+  assert (Snd : map snd (idx_list s 0) = map N.of_nat (seq 1 (length operating))).
+  { unfold idx_list. rewrite snd_combine by (rewrite map_length, seq_length; reflexivity).
+    rewrite Ls. rewrite <- seq_shift, map_map. apply map_ext_in. intros a Ha. apply in_seq in Ha.
+    unfold final_of_pos. rewrite N.mod_small by lia. lia. }
+  assert (Pos : forall m, In m operating -> exists j, nth_error s j = Some m /\ (j < length operating)%nat
+             /\ map_get m (idx_list s 0) = Some (N.of_nat j + 1)).
+  { intros m Hm. apply Hin, In_nth_error in Hm. destruct Hm as [j Hj]. exists j.
+    assert (j < length s)%nat by (apply nth_error_Some; congruence).
+    split; [exact Hj|]. split; [lia|]. rewrite (map_get_idx_list s 0 j m Ns Hj). cbn [Nat.add].
+    unfold final_of_pos. rewrite N.mod_small by lia. reflexivity. }
+  split; [reflexivity|]. split; [lia|]. split; [exact Fst|]. split; [exact Snd|]. split.
+  - intros m Hm. destruct (Pos m Hm) as (j & Hj & Hjl & Hg). exists (N.of_nat j + 1).
+    assert (Kk : keys = map (party_key seed) s) by apply wallet_keys_sorted_members.
+    assert (Nk : NoDup keys).
+    { rewrite Kk. apply FinFun.Injective_map_NoDup; [|exact Ns]. intros a b. apply party_key_inj. }
+    assert (Hkj : nth_error keys j = Some (party_key seed m)).
+    { rewrite Kk. rewrite nth_error_map, Hj. reflexivity. }
+    split; [exact Hg|]. split; [lia|]. split; [|split; [|split]].
+    + unfold sc_key. rewrite mod_index by lia. replace (N.to_nat (N.of_nat j + 1 - 1)) with j by lia. exact Hkj.
+    + unfold sc_index. rewrite (index_of_nth keys 0 j _ Nk Hkj). cbn [Nat.add].
+      apply N.mod_small. lia.
+    + replace (N.to_nat (N.of_nat j + 1 - 1)) with j by lia.
+      clear - F Hj. revert j Hj. induction F as [|a o s' sel' Ha F' IH]; intros j Hj; [destruct j; discriminate|].
+      destruct j as [|j]; cbn in Hj |- *.
+      * inversion Hj; subst. symmetry. exact Ha.
+      * apply IH. exact Hj.
+    + apply nth_error_Some. destruct (Hr m Hm). lia.
+  - intros m1 m2 f1 f2 G1 G2 H1 H2.
+    destruct (Pos m1 H1) as (j1 & Hj1 & _ & Hg1). destruct (Pos m2 H2) as (j2 & Hj2 & _ & Hg2).
+    rewrite G1 in Hg1. rewrite G2 in Hg2. inversion Hg1; inversion Hg2; subst f1 f2.
+    split.
+    + intros Hlt. destruct (Nat.lt_trichotomy j1 j2) as [L|[L|L]]; [lia| |].
+      * subst j2. rewrite Hj1 in Hj2. inversion Hj2. lia.
+      * pose proof (sorted_nth_lt s Ss j2 j1 m2 m1 Hj2 Hj1 L). lia.
+    + intros Hlt. apply (sorted_nth_lt s Ss j1 j2 m1 m2 Hj1 Hj2). lia.
+Qed.
+
+
+(* corollaries of [final_group_main], one per clause of the property *)
+Lemma final_operators_selected selected operating size quorum :
+  valid_wallet selected operating size quorum ->
+  exists ops idx,
+    final_signing_group selected operating size quorum = FOk ops idx
+    /\ length ops = length operating
+    /\ forall m, In m operating -> exists fi o,
+         map_get m idx = Some fi /\ nth_error ops (N.to_nat (fi - 1)) = Some o
+         /\ nth_error selected (N.to_nat (m - 1)) = Some o.
+Proof.
+  intros V. destruct (final_group_main 0%Z _ _ _ _ V) as (ops & idx & E & L & _ & _ & M & _).
+  exists ops, idx. split; [exact E|]. split; [exact L|]. intros m Hm.
+  destruct (M m Hm) as (fi & G & _ & _ & _ & O & NN).
+  destruct (nth_error selected (N.to_nat (m - 1))) as [o|]; [|contradiction]. exists fi, o. auto.
+Qed.
+
+Lemma final_indices_bijection selected operating size quorum :
+  valid_wallet selected operating size quorum ->
+  exists ops idx,
+    final_signing_group selected operating size quorum = FOk ops idx
+    /\ StronglySorted N.lt (map fst idx) /\ (forall m, In m (map fst idx) <-> In m operating)
+    /\ map snd idx = map N.of_nat (seq 1 (length operating))
+    /\ (forall m1 m2 f1 f2, map_get m1 idx = Some f1 -> map_get m2 idx = Some f2 ->
+          In m1 operating -> In m2 operating -> (m1 < m2 <-> f1 < f2) /\ (m1 = m2 <-> f1 = f2)).
+Proof.
+  intros V. destruct (final_group_main 0%Z _ _ _ _ V) as (ops & idx & E & _ & F & S & _ & O).
+  destruct V as (_ & _ & _ & Hnd & _).
+  exists ops, idx. split; [exact E|]. split; [rewrite F; apply sortN_sorted, Hnd|].
+  split; [intros m; rewrite F; apply In_sortN|]. split; [exact S|].
+  intros m1 m2 f1 f2 G1 G2 H1 H2. split; [apply O; assumption|].
+  pose proof (O m1 m2 f1 f2 G1 G2 H1 H2). pose proof (O m2 m1 f2 f1 G2 G1 H2 H1).
+  split; [intros ->; congruence | lia].
+Qed.
+
+(* ------------------------------------------------------------------ tie to key generation (C07) *)
+Lemma dkg_operating_valid size t seed self ex ops s selected quorum :
+  (size <= 255)%nat -> memN self ex = false ->
+  length selected = size ->
+  let g := mb_group (execute_member size t seed self ex ops s) in
+  (quorum <= Z.of_nat (length (operating g)))%Z ->
+  valid_wallet selected (operating g) (Z.of_nat size) quorum.
+Proof.
+  intros Hs Hself Hl g Hq. unfold valid_wallet.
+  split; [lia|]. split; [lia|]. split; [exact Hq|]. split.
+  - apply SSorted_NoDup. apply (operating_sorted size). apply execute_member_wf. exact Hs.
+  - intros m Hm. unfold g in Hm. rewrite operating_exact in Hm by assumption.
+    apply filter_In in Hm. destruct Hm as [Hm _]. apply In_range in Hm. lia.
+Qed.
+
+Lemma final_index_maps_to_keygen_party size t seed self ex ops s selected quorum :
+  (size <= 255)%nat -> memN self ex = false -> length selected = size ->
+  let mb := execute_member size t seed self ex ops s in
+  let oper := operating (mb_group mb) in
+  (quorum <= Z.of_nat (length oper))%Z ->
+  exists fops idx,
+    final_signing_group selected oper (Z.of_nat size) quorum = FOk fops idx
+    /\ forall m, 1 <= m <= N.of_nat size -> ~ In m ex ->
+         exists fi, map_get m idx = Some fi
+           /\ sc_key (party_keys mb) fi = Some (party_key seed m)
+           /\ sc_index (party_keys mb) (party_key seed m) = fi
+           /\ nth_error fops (N.to_nat (fi - 1)) = nth_error selected (N.to_nat (m - 1)).
+Proof.
+  intros Hs Hself Hl mb oper Hq.
+  pose proof (dkg_operating_valid size t seed self ex ops s selected quorum Hs Hself Hl Hq) as V.
+  destruct (final_group_main seed selected oper (Z.of_nat size) quorum V) as (fops & idx & E & _ & _ & _ & M & _).
+  exists fops, idx. split; [exact E|]. intros m Hr Hne.
+  assert (Hm : In m oper).
+  { unfold oper, mb. rewrite operating_exact by assumption. apply filter_In. split.
+    - apply In_range. exact Hr.
+    - apply negb_true_iff, memN_false. exact Hne. }
+  destruct (M m Hm) as (fi & G & _ & K1 & K2 & O & _). exists fi. auto.
+Qed.
+
+(* ------------------------------------------------------------------ signing admission, no panic *)
+Lemma accepted_sender_operating mb m :
+  accepts mb m = true -> In (m_sender m) (operating (mb_group mb)).
+Proof.
+  unfold accepts, should_accept. rewrite !andb_true_iff. intros [[_ H] _].
+  unfold operating. apply filter_In. split; [|exact H].
+  unfold is_operating in H. rewrite !andb_true_iff in H. apply memN_In. tauto.
+Qed.
+
+Lemma all_some_map {A B} (f : A -> option B) l :
+  (forall x, In x l -> f x <> None) -> exists r, all_some (map f l) = Some r.
+Proof.
+  induction l as [|x l IH]; intros H; [exists []; reflexivity|]. cbn [map all_some].
+  destruct (f x) as [y|] eqn:E; [|exfalso; apply (H x); [left; reflexivity | exact E]].
+  destruct IH as [r Hr]; [intros x' Hx'; apply H; right; exact Hx'|]. rewrite Hr. exists (y :: r). reflexivity.
+Qed.
+
+Lemma signing_no_panic keys g :
+  (length keys < 256)%nat ->
+  (forall m, In m (operating g) -> 1 <= m <= N.of_nat (length keys)) ->
+  (exists l, s_party_keys keys g = Some l)
+  /\ forall mb m, mb_group mb = g -> accepts mb m = true -> sc_key keys (m_sender m) <> None.
+Proof.
+  intros Hl Hr.
+  assert (K : forall m, In m (operating g) -> sc_key keys m <> None).
+  { intros m Hm E. apply converter_panics_only_outside in E; [|exact Hl | specialize (Hr m Hm); lia].
+    specialize (Hr m Hm). lia. }
+  split.
+  - unfold s_party_keys. destruct (all_some_map (sc_key keys) (operating g) K) as [r Hr']. rewrite Hr'. eauto.
+  - intros mb m <- A. apply K. apply accepted_sender_operating. exact A.
+Qed.
+
+Lemma signing_foreign_never_stored size t seed self ex ops session :
+  (size <= 255)%nat ->
+  let mb := execute_member size t seed self ex ops session in
+  (forall st h m, foreign size self ex ops session m -> s_receive mb st h m = h)
+  /\ (forall h m, s_receive mb 11 h m = h)
+  /\ (forall st h m, s_receive mb st h m <> h ->
+        ~ foreign size self ex ops session m /\ ~ In (m_sender m) ex /\ m_session m = session
+        /\ In (m_sender m) (operating (mb_group mb))).
+Proof.
+  intros Hs mb. split; [|split].
+  - intros st h m F. unfold s_receive. destruct (N.eqb st 11); [reflexivity|].
+    rewrite receive_accepts. destruct (accepts mb m) eqn:A; [|reflexivity].
+    exfalso. apply (accepts_not_foreign size t seed self ex ops session m Hs) in A. exact (A F).
+  - intros h m. reflexivity.
+  - intros st h m H. unfold s_receive in H. destruct (N.eqb st 11); [congruence|].
+    rewrite receive_accepts in H. destruct (accepts mb m) eqn:A; [|congruence].
+    pose proof (accepted_sender_operating mb m A) as Ho.
+    pose proof A as A'. apply (accepts_not_foreign size t seed self ex ops session m Hs) in A'.
+    apply (accepts_iff size t seed self ex ops session m Hs) in A. tauto.
+Qed.
+
+(* ------------------------------------------------------------------ NewSignature *)
+Open Scope Z_scope.
+Lemma be_to_Z_app a : forall acc b, be_to_Z acc (a ++ b) = be_to_Z (be_to_Z acc a) b.
+Proof. induction a as [|x a IH]; intros acc b; [reflexivity|]. cbn [app be_to_Z]. apply IH. Qed.
+
+Definition bytes (l : list N) : Prop := forall b, In b l -> (b < 256)%N.
+
+Lemma be_to_Z_bounds l : forall acc, bytes l -> 0 <= acc ->
+  acc * 256 ^ Z.of_nat (length l) <= be_to_Z acc l < (acc + 1) * 256 ^ Z.of_nat (length l).
+Proof.
+  induction l as [|b l IH]; intros acc Hb Ha.
+  - cbn [length be_to_Z]. change (256 ^ Z.of_nat 0) with 1. lia.
+  - cbn [be_to_Z]. assert (Hb0 : (b < 256)%N) by (apply Hb; left; reflexivity).
+    assert (Hbl : bytes l) by (intros x Hx; apply Hb; right; exact Hx).
+    specialize (IH (acc * 256 + Z.of_N b) Hbl ltac:(lia)).
+    replace (Z.of_nat (length (b :: l))) with (Z.of_nat (length l) + 1) by (cbn [length]; lia).
+    rewrite Z.pow_add_r by lia. change (256 ^ 1) with 256.
+    assert (0 < 256 ^ Z.of_nat (length l)) by (apply Z.pow_pos_nonneg; lia).
+    nia.
+Qed.
+
+Lemma be_to_Z_inj a : forall b acc acc', length a = length b -> bytes a -> bytes b ->
+  0 <= acc -> 0 <= acc' -> be_to_Z acc a = be_to_Z acc' b -> acc = acc' /\ a = b.
+Proof.
+  induction a as [|x a IH]; intros [|y b] acc acc' Hl Ha Hb H0 H0' E; cbn [length] in Hl; try discriminate.
+  - cbn in E. auto.
+  - cbn [be_to_Z] in E.
+    assert (Hx : (x < 256)%N) by (apply Ha; left; reflexivity).
+    assert (Hy : (y < 256)%N) by (apply Hb; left; reflexivity).
+    destruct (IH b (acc * 256 + Z.of_N x) (acc' * 256 + Z.of_N y)) as [E1 E2]; try lia; try assumption.
+    + intros z Hz. apply Ha. right. exact Hz.
+    + intros z Hz. apply Hb. right. exact Hz.
+    + assert (acc = acc' /\ x = y) as [-> ->] by lia. subst. auto.
+Qed.
+
+Lemma be_to_Z_leading_zero l : be_to_Z 0 (0%N :: l) = be_to_Z 0 l.
+Proof. reflexivity. Qed.
+
+Lemma new_signature_spec rb sb b rest :
+  new_signature rb sb (b :: rest) =
+    SOk (be_to_Z 0 rb) (be_to_Z 0 sb) (if (b <? 128)%N then Z.of_N b else Z.of_N b - 256)
+  /\ (forall recb, new_signature rb sb recb = SPanic <-> recb = [])
+  /\ ((b < 256)%N -> -128 <= (if (b <? 128)%N then Z.of_N b else Z.of_N b - 256) <= 127)
+  /\ (bytes rb -> 0 <= be_to_Z 0 rb < 256 ^ Z.of_nat (length rb))
+  /\ (bytes sb -> 0 <= be_to_Z 0 sb < 256 ^ Z.of_nat (length sb)).
+Proof.
+  split; [reflexivity|]. split; [|split; [|split]].
+  - intros [|x r]; cbn; split; intros H; try reflexivity; discriminate.
+  - intros Hb. destruct (N.ltb_spec b 128); lia.
+  - intros H. pose proof (be_to_Z_bounds rb 0 H ltac:(lia)). lia.
+  - intros H. pose proof (be_to_Z_bounds sb 0 H ltac:(lia)). lia.
+Qed.
+
+(* low S is decided on the integer the bytes denote: two byte strings of one length denote the
+   same S only if they are equal, and S <= half iff the big-endian value is *)
+Lemma signature_s_low_iff rb sb recb half r s v :
+  new_signature rb sb recb = SOk r s v -> (s <= half <-> be_to_Z 0 sb <= half).
+Proof. destruct recb as [|b t]; cbn; intros H; [discriminate|]. inversion H. tauto. Qed.
+Close Scope Z_scope.
+
+(* ================================================================== executable property *)
+Lemma pair_eqb_eq a b : pair_eqb a b = true -> a = b.
+Proof.
+  destruct a, b. unfold pair_eqb. cbn [fst snd]. rewrite andb_true_iff, !N.eqb_eq. intros [-> ->]. reflexivity.
+Qed.
+Lemma fsg_eqb_eq a b : fsg_eqb a b = true -> a = b.
+Proof.
+  destruct a, b; cbn [fsg_eqb]; try discriminate; try reflexivity.
+  rewrite andb_true_iff. intros [H1 H2]. apply listN_eqb_eq in H1.
+  apply (list_eqb_eq pair_eqb pair_eqb_eq) in H2. congruence.
+Qed.
+Lemma nodupZb_NoDup l : nodupZb l = true <-> NoDup l.
+Proof.
+  induction l as [|x l IH]; cbn [nodupZb].
+  - split; [constructor | reflexivity].
+  - rewrite andb_true_iff, negb_true_iff, IH. split.
+    + intros [H1 H2]. constructor; [|exact H2]. intros Hin. apply memZ_In in Hin. congruence.
+    + intros H. inversion H; subst. split; [|assumption].
+      destruct (memZ x l) eqn:E; [|reflexivity]. apply memZ_In in E. contradiction.
+Qed.
+
+Lemma f_valid_spec c : f_valid c = true ->
+  valid_wallet (f_selected c) (f_operating c) (f_size c) (f_quorum c) /\ (0 <= f_seed c)%Z.
+Proof.
+  unfold f_valid, valid_wallet. rewrite !andb_true_iff.
+  intros [[[[[H1 H2] H3] H4] H5] H6].
+  apply Z.eqb_eq in H1. apply Z.ltb_lt in H2. apply Z.leb_le in H3, H6. apply nodupb_NoDup in H4.
+  rewrite forallb_forall in H5. repeat split; try assumption.
+  - specialize (H5 m H). apply andb_true_iff in H5. destruct H5 as [H5 _]. apply N.leb_le in H5. exact H5.
+  - specialize (H5 m H). apply andb_true_iff in H5. destruct H5 as [_ H5]. apply Z.leb_le in H5. exact H5.
+Qed.
+
+Lemma spec_fsg_sound c : spec_fsg c = true -> f_valid c = true ->
+  let keys := wallet_keys (f_seed c) (f_operating c) in
+  exists ops idx, f_out c = FOk ops idx /\ NoDup (map snd idx)
+    /\ forall m, In m (f_operating c) -> exists fi o,
+         map_get m idx = Some fi /\ 1 <= fi <= N.of_nat (length (f_operating c))
+         /\ sc_key keys fi = Some (party_key (f_seed c) m)
+         /\ sc_index keys (party_key (f_seed c) m) = fi
+         /\ nth_error ops (N.to_nat (fi - 1)) = Some o
+         /\ nth_error (f_selected c) (N.to_nat (m - 1)) = Some o.
+Proof.
+  intros H V keys. unfold spec_fsg in H. rewrite V in H. cbn [negb orb] in H.
+  destruct (f_out c) as [| |ops idx]; try discriminate. exists ops, idx. split; [reflexivity|].
+  rewrite !andb_true_iff in H. destruct H as [[[_ _] Hn] Hf]. split; [apply nodupb_NoDup, Hn|].
+  rewrite forallb_forall in Hf. intros m Hm. specialize (Hf m Hm).
+  destruct (map_get m idx) as [fi|]; [|discriminate]. fold keys in Hf.
+  rewrite !andb_true_iff in Hf. destruct Hf as [[[[R1 R2] K1] K2] O].
+  destruct (sc_key keys fi) as [k|] eqn:Ek; [|discriminate].
+  destruct (nth_error ops (N.to_nat (fi - 1))) as [a|] eqn:Ea; [|discriminate].
+  destruct (nth_error (f_selected c) (N.to_nat (m - 1))) as [b|] eqn:Eb; [|discriminate].
+  apply N.leb_le in R1, R2. apply Z.eqb_eq in K1. apply N.eqb_eq in K2, O. subst k a.
+  exists fi, b. repeat split; assumption || reflexivity.
+Qed.
+
+Lemma model_spec_fsg c : f_valid c = true -> agree_fsg c = true -> spec_fsg c = true.
+Proof.
+  intros V A. destruct (f_valid_spec c V) as [W _].
+  destruct (final_group_main (f_seed c) _ _ _ _ W) as (ops & idx & E & Lo & _ & Snd & M & _).
+  unfold agree_fsg in A. apply fsg_eqb_eq in A. rewrite E in A.
+  unfold spec_fsg. rewrite V, A. cbn [negb orb]. rewrite !andb_true_iff.
+  assert (Li : length idx = length (f_operating c)).
+  { rewrite <- (map_length snd idx), Snd, map_length, seq_length. reflexivity. }
+  split; [split; [split|]|].
+  - apply Nat.eqb_eq. exact Lo.
+  - apply Nat.eqb_eq. exact Li.
+  - apply nodupb_NoDup. rewrite Snd. apply SSorted_NoDup, range_sorted.
+  - apply forallb_forall. intros m Hm. destruct (M m Hm) as (fi & G & R & K1 & K2 & O & NN).
+    rewrite G, K1, K2, Z.eqb_refl, N.eqb_refl, O.
+    destruct (nth_error (f_selected c) (N.to_nat (m - 1))) as [b|]; [|contradiction].
+    rewrite N.eqb_refl. rewrite !andb_true_r. apply andb_true_iff. split; apply N.leb_le; lia.
+Qed.
+
+Definition sg_done (o : sign_obs) : bool := match sg_status o with Done => true | _ => false end.
+
+Lemma spec_sign_sound c : spec_sign c = true ->
+  (forall m, In m (w_dkg_operating c) -> exists fi,
+       map_get m (w_final c) = Some fi /\ sc_key (w_ks c) fi = Some (party_key (w_seed c) m))
+  /\ NoDup (w_signers c) /\ w_honest c <= N.of_nat (length (w_signers c))
+  /\ (forall s, In s (w_signers c) -> 1 <= s <= N.of_nat (length (w_dkg_operating c)))
+  /\ (forall o, In o (w_obs c) -> In (sg_member o) (w_signers c))
+  /\ (forall o1 o2, In o1 (w_obs c) -> In o2 (w_obs c) -> sg_done o1 = true -> sg_done o2 = true ->
+        sg_sig o1 = sg_sig o2 /\ sg_valid o1 = true /\ sg_low_s o1 = true).
+Proof.
+  unfold spec_sign. rewrite !andb_true_iff. intros [[[[[A B] C] D] E] F].
+  split; [|split; [|split; [|split; [|split]]]].
+  - rewrite forallb_forall in A. intros m Hm. specialize (A m Hm).
+    destruct (map_get m (w_final c)) as [fi|]; [|discriminate]. exists fi. split; [reflexivity|].
+    apply andb_true_iff in A. destruct A as [A _].
+    destruct (sc_key (w_ks c) fi) as [k|]; [|discriminate]. apply Z.eqb_eq in A. congruence.
+  - apply nodupb_NoDup. exact B.
+  - apply N.leb_le. exact C.
+  - rewrite forallb_forall in D. intros s Hs. specialize (D s Hs). apply andb_true_iff in D.
+    destruct D as [D1 D2]. apply N.leb_le in D1, D2. lia.
+  - rewrite forallb_forall in E. intros o Ho. specialize (E o Ho). apply andb_true_iff in E.
+    apply memN_In. tauto.
+  - intros o1 o2 I1 I2 D1 D2. fold sg_done in F.
+    assert (F1 : In o1 (filter sg_done (w_obs c))) by (apply filter_In; auto).
+    assert (F2 : In o2 (filter sg_done (w_obs c))) by (apply filter_In; auto).
+    destruct (filter sg_done (w_obs c)) as [|o0 rest]; [destruct F1|].
+    pose proof (proj1 (forallb_forall _ _) F) as F'.
+    pose proof (F' o1 F1) as G1. pose proof (F' o2 F2) as G2. cbv beta in G1, G2.
+    rewrite !andb_true_iff in G1, G2. destruct G1 as [[G1 ?] ?]. destruct G2 as [[G2 _] _].
+    apply N.eqb_eq in G1, G2. repeat split; congruence.
+Qed.
+
+Lemma model_sign_indices c :
+  valid_wallet (w_selected c) (w_dkg_operating c) (w_size c) (w_quorum c) ->
+  agree_sign c = true ->
+  forall m, In m (w_dkg_operating c) -> exists fi,
+    map_get m (w_final c) = Some fi /\ 1 <= fi <= N.of_nat (length (w_dkg_operating c))
+    /\ sc_key (w_ks c) fi = Some (party_key (w_seed c) m)
+    /\ sc_index (w_ks c) (party_key (w_seed c) m) = fi
+    /\ nth_error (w_final_ops c) (N.to_nat (fi - 1)) = nth_error (w_selected c) (N.to_nat (m - 1)).
+Proof.
+  intros W A m Hm. unfold agree_sign in A. apply andb_true_iff in A. destruct A as [A1 A2].
+  apply fsg_eqb_eq in A1. apply listZ_eqb_eq in A2.
+  destruct (final_group_main (w_seed c) _ _ _ _ W) as (ops & idx & E & _ & _ & _ & M & _).
+  rewrite E in A1. inversion A1; subst ops idx. rewrite A2.
+  destruct (M m Hm) as (fi & G & R & K1 & K2 & O & _). exists fi. auto.
+Qed.
+
+Lemma In_combine_map {A B} (f : A -> B) l x y : In (x, y) (combine l (map f l)) -> y = f x.
+Proof.
+  induction l as [|a l IH]; cbn [map combine In]; [tauto|].
+  intros [H|H]; [inversion H; reflexivity | apply IH, H].
+Qed.
+
+Lemma spec_conv_sound c : spec_conv c = true ->
+  NoDup (v_keys c) -> (length (v_keys c) < 256)%nat ->
+  length (v_idx c) = length (v_idx_out c)
+  /\ forall i out, In (i, out) (combine (v_idx c) (v_idx_out c)) ->
+       1 <= i <= N.of_nat (length (v_keys c)) -> exists k, out = Some k /\ sc_index (v_keys c) k = i.
+Proof.
+  unfold spec_conv. rewrite andb_true_iff. intros [H1 H2] Hnd Hl.
+  split; [apply Nat.eqb_eq, H1|].
+  apply orb_true_iff in H2. destruct H2 as [H2|H2].
+  - apply negb_true_iff, andb_false_iff in H2. destruct H2 as [H2|H2].
+    + apply nodupZb_NoDup in Hnd. congruence.
+    + apply N.ltb_ge in H2. lia.
+  - rewrite forallb_forall in H2. intros i out Hin Hr. specialize (H2 (i, out) Hin). cbn [fst snd] in H2.
+    apply orb_true_iff in H2. destruct H2 as [H2|H2].
+    + apply negb_true_iff, andb_false_iff in H2. destruct H2 as [H2|H2]; apply N.leb_gt in H2; lia.
+    + destruct out as [k|]; [|discriminate]. exists k. split; [reflexivity|]. apply N.eqb_eq, H2.
+Qed.
+
+Lemma model_spec_conv c : agree_conv c = true -> spec_conv c = true.
+Proof.
+  unfold agree_conv. rewrite !andb_true_iff. intros [[A _] _].
+  assert (E : v_idx_out c = map (sc_key (v_keys c)) (v_idx c)).
+  { apply (list_eqb_eq optZ_eqb); [|exact A]. intros [x|] [y|]; cbn; try discriminate; try reflexivity.
+    intros H. apply Z.eqb_eq in H. congruence. }
+  unfold spec_conv. rewrite E, map_length, Nat.eqb_refl. cbn [andb].
+  destruct (nodupZb (v_keys c) && (N.of_nat (length (v_keys c)) <? 256)) eqn:V; [|reflexivity].
+  cbn [negb orb]. apply andb_true_iff in V. destruct V as [V1 V2]. apply nodupZb_NoDup in V1. apply N.ltb_lt in V2.
+  apply forallb_forall. intros [i o] Hin. apply In_combine_map in Hin. cbn [fst snd]. subst o.
+  destruct ((1 <=? i) && (i <=? N.of_nat (length (v_keys c)))) eqn:R; [|reflexivity]. cbn [negb orb].
+  apply andb_true_iff in R. destruct R as [R1 R2]. apply N.leb_le in R1, R2.
+  destruct (converter_roundtrip (v_keys c) i V1 ltac:(lia) ltac:(lia)) as [k [K1 K2]].
+  rewrite K1. apply N.eqb_eq. exact K2.
+Qed.
+
+(* signing probe: what was stored comes from legitimate deliveries; no panic for a wallet whose
+   key list covers the group *)
+Lemma spec_sprobe_sound c : spec_sprobe c = true ->
+  (forall k, k < 10 -> forall x, In x (nth (N.to_nat k) (so_history c) []) ->
+     exists st m, In (st, m) (sp_msgs c) /\ m_sender m = x /\ m_kind m = k /\ st <> 11
+       /\ m_sender m <> sp_self c /\ 1 <= m_sender m <= sp_size c /\ ~ In (m_sender m) (sp_dq c)
+       /\ nth_error (sp_ops c) (N.to_nat (m_sender m - 1)) = Some (m_op m)
+       /\ m_session m = sp_session c)
+  /\ (sp_size c <= N.of_nat (length (sp_keys c)) -> so_keys c <> None).
+Proof.
+  unfold spec_sprobe. rewrite !andb_true_iff. intros [[_ H] P]. split.
+  - intros k Hk x Hx. rewrite forallb_forall in H.
+    assert (Ik : In k s_kinds) by (cbn; lia). specialize (H k Ik).
+    rewrite !andb_true_iff in H. destruct H as [[[H1 _] _] _].
+    apply (sublistN_In _ _ H1) in Hx. unfold senders in Hx. rewrite map_map in Hx.
+    apply in_map_iff in Hx. destruct Hx as [[st m] [E Hm]]. cbn [snd] in E.
+    apply filter_In in Hm. destruct Hm as [Hm Hb]. cbn [snd] in Hb.
+    apply andb_true_iff in Hb. destruct Hb as [Hb1 Hb2]. apply N.eqb_eq in Hb1.
+    unfold s_legit in Hb2. cbn [fst snd] in Hb2. rewrite !andb_true_iff in Hb2.
+    destruct Hb2 as [[[[[[L1 L2] L3] L4] L5] L6] L7].
+    apply negb_true_iff, N.eqb_neq in L1, L2. apply N.leb_le in L3, L4.
+    apply negb_true_iff, memN_false in L5. apply N.eqb_eq in L7.
+    destruct (nth_error (sp_ops c) (N.to_nat (m_sender m - 1))) as [o|] eqn:En; [|discriminate].
+    apply N.eqb_eq in L6. subst o.
+    exists st, m. rewrite En. auto 12.
+  - intros Hs. apply orb_true_iff in P. destruct P as [P|P].
+    + apply negb_true_iff, N.leb_gt in P. lia.
+    + destruct (so_keys c); [discriminate | discriminate P].
+Qed.
+
+(* hypotheses are satisfiable: 3-of-5 key generation with member 3 excluded, then the final group *)
+Example example_final_group :
+  let mb := execute_member 5 2 200 1 [3] [11; 12; 13; 14; 15] 7 in
+  final_signing_group [11; 12; 13; 14; 15] (operating (mb_group mb)) 5 3
+    = FOk [11; 12; 14; 15] [(1, 1); (2, 2); (4, 3); (5, 4)]
+  /\ party_keys mb = [201; 202; 204; 205]%Z
+  /\ sc_key (party_keys mb) 3 = Some 204%Z /\ sc_index (party_keys mb) 204%Z = 3
+  /\ valid_wallet [11; 12; 13; 14; 15] (operating (mb_group mb)) 5 3.
+Proof.
+  cbv zeta. split; [vm_compute; reflexivity|]. split; [vm_compute; reflexivity|].
+  split; [vm_compute; reflexivity|]. split; [vm_compute; reflexivity|].
+  unfold valid_wallet. change (operating _) with [1; 2; 4; 5].
+  split; [reflexivity|]. split; [lia|]. split; [cbn; lia|]. split.
+  - repeat constructor; cbn; lia.
+  - intros m Hm. cbn in Hm. lia.
+Qed.
